@@ -131,7 +131,7 @@ def run(prop, tier, seed, replay=None):
             mres = [("model-error", model_problem)] * len(cases)
         ires = [_impl(mod, c) for c in cases]
 
-    if tier == "thorough" and proof["build_rc"] == 0 and not replay:
+    if (tier == "thorough" or os.environ.get("VERIF_VMCHECK")) and proof["build_rc"] == 0 and not replay:
         try:
             from . import vmcheck
             vinfo, vprobs = vmcheck.run(prop, seed=seed)
